@@ -13,7 +13,10 @@ mkdir -p "$H"
 rsync -a --delete --exclude target /verif/harness/ "$H/"
 sed -i "s#\.\./repo-link#$WT#g" "$H/Cargo.toml"
 (cd "$H" && CARGO_NET_OFFLINE=true cargo build --release --offline 2>&1 | grep -E '^error' -A8 | head -20)
-(cd /verif && "$H/target/release/harness" check "$PID" "$TIER" "${VERIF_SEED:-1}" /verif/lean/.lake/build/bin/driver "/verif/work/mut-$PID.json" >/dev/null 2>&1)
+if [ "$PID" = "C20" ]; then
+  (cd "$H" && CARGO_NET_OFFLINE=true cargo build --release --offline --manifest-path "$WT/duckscript_cli/Cargo.toml" --target-dir "$H/target-cli" 2>&1 | grep -E '^error' -A8 | head -20)
+fi
+(cd /verif && timeout 1500 "$H/target/release/harness" check "$PID" "$TIER" "${VERIF_SEED:-1}" /verif/lean/.lake/build/bin/driver "/verif/work/mut-$PID.json" >/dev/null 2>&1)
 python3 - "$PID" <<'PY'
 import json,sys
 r=json.load(open('/verif/work/mut-%s.json'%sys.argv[1]))
